@@ -24,39 +24,9 @@ CHECKS = {
   note="Decided: NewSlice3 (all 2-/3-index slice forms funnel here), StringSlice, MakeSlice (+ messages), send on / close of a closed channel and close of a nil channel (ChanSend, ChanTrySend, ChanClose; decided at the commit point under the channel lock). Compiler side (staged symbolic execution as for C02, 175 cases): Builder.IndexAddr/Index emit an AssertIndexRange check that fires exactly when the index - judged in its own type, for all 11 index types, arrays/slices/strings, and sampled constant indexes - is out of range; Builder.Slice hands low/high to NewSlice3/StringSlice value-preservingly. Not decided here: nil-dereference via SIGSEGV handler, recover-ability (C04), failed type assertion CFG, placement of checks by the compiler, send on a nil channel (Go spec: blocks forever), nil-map clause (see DESIGN.md). Trusted: go/ssa+go/types, SMT solvers, runtime/math.MulUintptr, allocator contract. Integers are 64-bit bit-vectors (W=64 only).",
   ref="DESIGN.md §3 C03"),
 "C06": dict(
-  text="Proof of the sub-claims a hash map rests on and that are carried by small functions: hash/equality coherence for float and complex keys (equal keys - including +0/-0 - hash alike; proved with the SMT floating-point theory over the IEEE bit patterns, as lemmas over the verified postconditions of f32hash/f64hash/c64hash/c128hash and f32equal..c128equal), strhash hashes exactly the string's bytes, an unhashable dynamic key type makes interhash/nilinterhash panic and only then, efaceeq/ifaceeq (nil, direct-interface and uncomparable cases), and the representation helpers tophash (>= minTopHash), bucketShift/bucketMask, isEmpty, evacuated, overLoadFactor (never for <= 8 entries), tooManyOverflowBuckets.",
-  note="NOT decided: the finite-map refinement of mapassign/mapaccess/mapdelete/evacuate/mapiternext (1700 lines of bucket arithmetic over raw memory), iteration order clauses, typehash/structequal/arrayequal recursion, nil-map read/write behaviour. Trusted: memhash is a function of seed and bytes, fastrand, calls through type-descriptor function values are pure.",
+  text="Proof of the sub-claims a hash map rests on and that are carried by small functions: hash/equality coherence for float and complex keys (equal keys - including +0/-0 - hash alike; proved with the SMT floating-point theory over the IEEE bit patterns, as lemmas over the verified postconditions of f32hash/f64hash/c64hash/c128hash and f32equal..c128equal), strhash hashes exactly the string's bytes, an unhashable dynamic key type makes interhash/nilinterhash panic and only then, efaceeq/ifaceeq (nil, direct-interface and uncomparable cases), and the representation helpers tophash (>= minTopHash), bucketShift/bucketMask, isEmpty, evacuated, overLoadFactor (never for <= 8 entries), tooManyOverflowBuckets. BOUNDED stand-in (labelled bounded, not counted as proved) for the finite-map refinement: the real map.go and the operation/iteration wrappers of z_map.go are extracted mechanically from the working tree (dropped: package clause, //go:linkname lines), linked against a hand-written environment (allocation, memmove, random source) and driven against Go's own map with pseudo-random operation sequences under hash functions from constant to well mixed, including range loops mutated by their body and started in the middle of a grow.",
+  note="NOT decided by proof: the finite-map refinement of mapassign/mapaccess/mapdelete/evacuate/mapiternext (1700 lines of bucket arithmetic over raw memory; bounded stand-in only: uint64 keys/values, quick 2800 sequences of 400 operations, thorough 42000 of 500), typehash/structequal/arrayequal recursion, nil-map read/write behaviour, indirect keys/elems, NaN keys. Trusted: memhash is a function of seed and bytes, fastrand, calls through type-descriptor function values are pure; for the bounded run the environment shim harness/c06_map/shim.go.",
   ref="DESIGN.md §3 C06"),
-"C07": dict(
-  text="Proof of the run-time side of interface satisfaction and interface equality for all method tables: Implements(T,V) (both the interface and the concrete-type scan) returns true exactly when every method of T has a method of V with equal name and equal type descriptor, given strictly sorted tables (loop invariants with forall/exists); findMethod returns the interface-call entry of exactly the matching method; EfaceEqual (nil, different types, direct payload, uncomparable => panic).",
-  note="ASSUMED, not proved: compiler-emitted method tables are strictly sorted by one total order on names (string order for findMethod). NOT decided: injectivity of the type-naming scheme (ssa/abi structHash/TypeName) modulo types.Identical incl. struct tags, linker merging, method dispatch through itabs; abi.Type.Uncommon/Methods/Kind are trusted contracts; names compared through an uninterpreted order-embedding of string contents.",
-  ref="DESIGN.md §3 C07"),
-"C08": dict(
-  cat="other",
-  tech="BOUNDED exhaustive execution of the real size computations (stand-in, not a proof: the computations recurse over go/types graphs and the LLVM data layout, outside the verifier's subset); contract-based deductive verification (//@ contract, VCs over go/ssa, SMT) only for the shared rounding helper ssa.align",
-  text="BOUNDED stand-in, labelled bounded and not counted as proved: the three real computations - goProgram.Sizeof/Alignof/Offsetsof (what unsafe.Sizeof/Alignof/Offsetof fold to), the LLVM data layout of the lowered type (what generated code allocates, copies and addresses) and abi.Builder.Size/Align (what the run-time descriptors record) - are run in-process on every type of a fixed family (every basic kind; pointers, slices, maps, chans, funcs, interfaces; arrays of length 0/1/3; all 1- and 2-field structs over a 14-type alphabet, all 3-field structs over a 6-type alphabet; nested / array-of padded structs followed by a small field; zero-size tail fields; function values) for the host data layout and for wasm32 configured exactly as internal/build/build.go does (the StdSizes literal is read from the working tree), and must give the same size, alignment and field offsets. By contract (proof, all inputs): ssa.align rounds up to the next multiple of a power of two. Level 'other' because nothing but align is proved.",
-  note="KNOWN FINDINGS (genuine disagreements on the unchanged tree, recorded in known_findings.json with the exact failing inputs in known/C08-failing-inputs.txt; any failing input not listed there is a VIOLATION): (1) structs ending in a zero-size field: compile-time and descriptor size include Go's tail padding, the LLVM struct does not (all targets); (2) wasm32: StdSizes{4,4} is not the LLVM wasm32 layout - 64-bit scalars 4- vs 8-aligned, nested struct sizes not padded, closure word added after alignment. NOT decided: type shapes outside the family, the host-C-compiler clause, extended map/chan descriptor fields, arm/386 data layouts.",
-  ref="DESIGN.md §10 C08"),
-"C10": dict(
-  text="Proof by monitor (lock-invariant) reasoning, valid under every interleaving and with spurious wake-ups: for buffered channels every critical section of ChanSend/ChanTrySend/ChanRecv/chanTryRecv/ChanClose/ChanLen preserves the ring-buffer invariant (0<=len<=cap, 0<=getp<cap, fixed buffer), a successful send writes exactly the slot (getp+len) mod cap with the sender's bytes and increments len, a successful receive delivers slot getp, advances getp and decrements len, nothing else in the buffer changes, a receive yields ok=false only when closed and empty; protected fields are only touched under the lock.",
-  note="Not decided: unbuffered rendezvous protocol, Select/TrySelect commitment, every liveness clause (wake-ups, no avoidable deadlock), the lemma from ring-buffer steps to the abstract FIFO sequence (argued in DESIGN.md). Trusted: pthread mutual exclusion, memcpy, notifyOps touches only selectOp state, eltSize consistent across calls (< 2^16, cap < 2^28), chanbuf(p) fixed by NewChan.",
-  ref="DESIGN.md §3 C10"),
-"C11": dict(
-  text="Proof (monitor reasoning + ghost accounting of atomic operations, every interleaving): semaAcquire returns only after exactly one successful CompareAndSwap(addr, v, v-1) with v != 0 and performs no other write to the semaphore word (no acquire without a permit: the safety half of Mutex/RWMutex/WaitGroup built on it); semaRelease adds exactly one permit; waiter count only touched under its lock and every lock released on exit; notifyListAdd hands out ticket wait-1; notifyListWait returns only when its ticket has been notified (wrap-aware less(t, notify)); NotifyOne advances notify by at most one, NotifyAll stores once.",
-  note="Not decided: go-statement lowering, atomics lowering tables and total order of atomics (hardware/LLVM memory model), every liveness clause (admission of waiters, wake-ups), Once/WaitGroup code of the standard library itself. Trusted: atomics indivisible, pthread mutual exclusion, getSemaState/getNotifyState return the unique non-nil state object.",
-  ref="DESIGN.md §3 C11"),
-"C17": dict(
-  text="Proof (all inputs) for shellparse.Parse: every index is in range, the scan terminates, an error is never returned together with an argument list, nothing but freshly allocated memory is written. BOUNDED stand-in (labelled bounded, not counted as proved) for the round-trip clause: the real Parse and SplitPkgConfigFlags are run on every argument list whose documented quoted form has at most K characters (quick K=8: ~3*10^5 lists; thorough K=10) over an alphabet of letters, blank, tab, both quotes, backslash, '-', '$' and non-ASCII, and must split back to exactly the original list.",
-  note="Proof part trusts strings.Builder / unicode.IsSpace / []rune(string) contracts (contents not modelled). The round trip is decided only up to the bound. SplitPkgConfigFlags' index safety is covered by the bounded run only. NOT applicable: build-tag evaluation, $VAR/$(cmd) expansion, flag merging (library code outside the repository; oracle is the go tool).",
-  ref="DESIGN.md §3 C17"),
-"C18": dict(
-  text="Proof that (*Loader).mergeConfig implements the property's merge law for EVERY field of targets.Config as it is in the working tree: the contract is generated from the struct type at check time (string: nearest non-empty definer wins; bool: or; []string: concatenation in order, element-wise; Name and *src unchanged; nothing else written). A field added and not merged, a dropped if, or replace-instead-of-append fails that field's obligation.",
-  note="resolveInheritance/Load/HasInheritance/GetInherits are verified against generated contracts for the memory discipline of the fold (every mergeConfig call meets mergeConfig's separation preconditions: the result's lists are owned by the invocation, parents' lists are not; errors propagate; the name is kept). Not decided: the ORDER of the fold (parents in inherits order, then own) and the cyclic-parent clause (unbounded recursion on a cycle: see DESIGN.md §10); JSON decoding (encoding/json) trusted. Assumes dst's list arrays are disjoint from src's arrays and both objects (true in resolveInheritance where dst is fresh); strings compared by representation; Go append semantics trusted.",
-  ref="DESIGN.md §3 C18"),
-"C20": dict(
-  text="Proof, for every archive entry name (unconstrained symbolic string), that extractTarGz and extractZip call a file-system-creating function (os.MkdirAll, os.OpenFile, os.Create) only with a path proved to lie lexically below the destination (or to be the destination itself for parent directories), that an entry for which this cannot be established ends the extraction with an error before any such call, and that these functions call no other file-system mutator (effect allow-list: no Symlink/Link/Rename/Chmod/...), so links in archives are never materialised.",
-  note="The path argument rests on TRUSTED lemmas about the Go standard library (/verif/specs/paths.smt2): filepath.Join returns a Clean'ed path; a cleaned path with prefix Clean(dest)+separator lies below dest; Dir of a confined path is confined or dest. NOT decided: byte-exact contents (io.Copy, archive readers), the concurrent-requests clause (flock+rename across processes), .tar.xz (delegated to the external tar program, trusted), dispatch in downloadAndExtractArchive. Deferred Close calls are not executed in the model.",
-  ref="DESIGN.md §3 C20"),
 "C05": dict(
   text="Proof (all inputs, all loop iterations via invariants) of functional contracts taken from the property: append/grow/copy/slice header arithmetic, storage sharing, byte-exact prefix/appended contents incl. overlap and zero-size elements; UTF-8 decode/encode against Unicode Table 3-6/3-7 spec functions and their round-trip lemma; string concat/equality/ordering/iteration/conversions.",
   note="Trusted: libc memcpy/memmove/memset contracts (memcpy requires non-overlap: obligation), allocator freshness, clite.Advance, go 'make'. GrowSlice/SliceAppend/SliceCopy are verified under stated size bounds (etSize < 2^16, cap,num < 2^28) in int mode with explicit no-overflow obligations; typed and raw memory views assumed disjoint. StringToRunes/StringFromRunes: see evidence (loop safety only).",
